@@ -85,6 +85,13 @@ Feed(o, c, m) ==
 
 Init == obj = <<>>
 New(i, lgK, type, full, m, big) == obj' = (i :> Fresh(lgK, type, full, m, big)) @@ obj
+\* a sketch that has been offered exactly the coupons of the sequence cs, e.g. one rebuilt from a documented coupon-list image
+\* written by hand (the only way to present coupon values >= 32): same ghosts as New followed by FeedMany
+NewFed(i, lgK, type, full, cs, m, big) ==
+  LET K == 2^lgK  f == Fresh(lgK, type, full, m, big) IN
+  obj' = (i :> [f EXCEPT !.fed = IF Keep(f, m) THEN {cs[n] : n \in DOMAIN cs} ELSE {},
+                          !.top = IF big THEN @ ELSE FoldLeft(LAMBDA g, c : [g EXCEPT ![c[1] % K] = Max2(@, c[2])], @, cs),
+                          !.empty = cs = <<>>]) @@ obj
 CouponUpdate(i, c, m) ==
   /\ i \in Live
   /\ ModeOK(obj[i], m)
@@ -124,6 +131,7 @@ Destroy(i) == i \in Live /\ obj' = [x \in Live \ {i} |-> obj[x]]
 Next == \E i \in Ids :
           \/ \E lgK \in LgKs, t \in Types, full \in BOOLEAN, m \in Modes, big \in Bigs : New(i, lgK, t, full, m, big)
           \/ \E c \in Coupons, m \in Modes : CouponUpdate(i, c, m)
+          \/ \E lgK \in LgKs, c1, c2 \in Coupons, m \in Modes, big \in Bigs : NewFed(i, lgK, 8, FALSE, <<c1, c2>>, m, big)
           \/ \E j \in Ids, c \in Coupons, m1, m2 \in Modes : i # j /\ UpdateAll(<<i, j>>, c, <<m1, m2>>)
           \/ \E c1, c2 \in Coupons, m \in Modes : FeedMany(i, <<c1, c2>>, m)
           \/ UpdateIgnored(i)
